@@ -166,6 +166,84 @@ func (g *gen) bindPhis(b *ssa.BasicBlock, headerEntryOnly bool) {
 			}
 		}
 		g.vals[phi] = Val{T: g.define(g.valName(phi), s, t), S: s, GoT: phi.Type()}
+		g.markFreshPhi(phi, false)
+	}
+}
+
+// freshVal: the SSA value always denotes an object allocated by this execution of the function (or nil):
+// allocations, slices of them, appends to them, and phis whose every incoming value is such.
+func (g *gen) freshVal(v ssa.Value) bool {
+	if g.freshMemo == nil {
+		g.freshMemo = map[ssa.Value]int{}
+	}
+	switch g.freshMemo[v] {
+	case 1, 2:
+		return true // 1: on the current path (optimistic for cycles through phis)
+	case 3:
+		return false
+	}
+	g.freshMemo[v] = 1
+	ok := false
+	switch x := v.(type) {
+	case *ssa.Alloc, *ssa.MakeSlice:
+		ok = true
+	case *ssa.Const:
+		ok = x.Value == nil // nil slice / pointer
+	case *ssa.Slice:
+		ok = g.freshVal(x.X)
+	case *ssa.Convert:
+		_, toSlice := x.Type().Underlying().(*types.Slice)
+		if b, isStr := x.X.Type().Underlying().(*types.Basic); toSlice && isStr && b.Info()&types.IsString != 0 {
+			ok = true
+		}
+	case *ssa.Call:
+		if b, isB := x.Call.Value.(*ssa.Builtin); isB && b.Name() == "append" && len(x.Call.Args) > 0 {
+			ok = g.freshVal(x.Call.Args[0])
+		}
+	case *ssa.Phi:
+		ok = true
+		for _, e := range x.Edges {
+			if !g.freshVal(e) {
+				ok = false
+				break
+			}
+		}
+	}
+	if ok {
+		g.freshMemo[v] = 2
+	} else {
+		g.freshMemo[v] = 3
+		// optimistic answers given while this value was in progress may be wrong: forget them
+		for k, st := range g.freshMemo {
+			if st == 2 {
+				if _, isPhi := k.(*ssa.Phi); isPhi {
+					delete(g.freshMemo, k)
+				}
+			}
+		}
+	}
+	return ok
+}
+
+// markFreshPhi registers the value of a phi over fresh objects as a fresh reference; for a loop-havocked phi
+// the fact that the object was allocated after function entry is stated explicitly.
+func (g *gen) markFreshPhi(phi *ssa.Phi, havocked bool) {
+	v, okv := g.vals[phi]
+	if !okv || v.L != nil || !g.freshVal(phi) {
+		return
+	}
+	ref := ""
+	switch phi.Type().Underlying().(type) {
+	case *types.Slice:
+		ref = "(s.ref " + v.T + ")"
+	case *types.Pointer:
+		ref = v.T
+	default:
+		return
+	}
+	g.freshRefs[ref] = true
+	if havocked && g.entry != nil {
+		g.ctx.assume("(or (= " + ref + " 0) (>= " + ref + " " + g.stGet(g.entry, "alloctop") + "))")
 	}
 }
 
@@ -265,6 +343,7 @@ func (g *gen) loopHeader(b *ssa.BasicBlock, li *loopInfo, in State, rc string) (
 		}
 		hv := g.havocVal(g.valName(phi)+"_loop", phi.Type(), st, rc)
 		g.vals[phi] = hv
+		g.markFreshPhi(phi, true)
 	}
 	// 4. assume invariants in the arbitrary iteration
 	for _, a := range autos {
